@@ -153,6 +153,10 @@ template <typename CardSecretType> struct TMCG_StackSecret
 			if (!TMCG_ParseHelper::cm(s, "sts", '^'))
 				throw false;
 			
+			// drop the previous content: the permutation check below
+			// must only see the imported pairs
+			stack.clear();
+			
 			// size of stack
 			std::string size_str;
 			if (!TMCG_ParseHelper::gs(s, '^', size_str))
